@@ -222,14 +222,15 @@ def run_case(desc, V):
     d = A1.d
     if d:
         u = A1.multivector(keys=(0, 1), values=[2, 3])
-        w = A1.multivector(keys=(1, 2 ** d - 1), values=[5, 7])
+        wk = tuple(dict.fromkeys((1, 2 ** d - 1)))          # (one blade only in the 1-D algebra)
+        w = A1.multivector(keys=wk, values=[5, 7][:len(wk)])
         (u * w) + (w ^ u) - (u | w)
         ~u
         # ... and the SAME operator with other patterns next to one unchanged operand pattern (generated functions whose
         # names do not tell all operand patterns apart would now be replaced)
         if desc['kind'] in ('binary', 'unary'):
             from kingdon.multivector import MultiVector
-            alts = [(1,), (0,), (2 ** d - 1,), tuple(k for k in range(2 ** d) if bin(k).count('1') == 2)[:3] or (0, 1), (0, 1, 2 ** d - 1)]
+            alts = [(1,), (0,), (2 ** d - 1,), tuple(k for k in range(2 ** d) if bin(k).count('1') == 2)[:3] or (0, 1), tuple(dict.fromkeys((0, 1, 2 ** d - 1)))]
             fixed_a = MultiVector.fromkeysvalues(A1, tuple(desc['ka']), [3 + i for i in range(len(desc['ka']))])
             fixed_b = MultiVector.fromkeysvalues(A1, tuple(desc.get('kb') or desc['ka']), [2 + i for i in range(len(desc.get('kb') or desc['ka']))])
             for alt in alts:
